@@ -611,4 +611,187 @@ def c07_apply_glue(funcs, text):
     return obs, dict(models=sorted(ex.models_used), inlined=[f])
 
 
-UNITS = {"c07_apply_glue": c07_apply_glue, "c12_mapping": c12_mapping, "c10_trigger": c10_trigger, "c07_prune_glue": c07_prune_glue}
+def native_planner(n, cap):
+    def gen(model):
+        ranks = [(_val(model, "rank%d" % i) or 0) for i in range(n)]
+        flags = [_val(model, "acc%d" % i) in (True, "true") for i in range(n)]
+        capv = cap if cap is not None else (_val(model, "capacity") or n)
+        if n == 0:
+            return None
+        ents = ", ".join("W { id: %d, rank: %du64, accessed: %s }" % (i, ranks[i], "true" if flags[i] else "false") for i in range(n))
+        return ("""    let es: [W; %d] = [%s];
+    let cap: usize = %dusize;
+    let u = Update::new(es, cap);
+    check_plan::<W, %d>(&es, cap, &u);""" % (n, ents, capv, n))
+    gen.prelude = 'include!(concat!(env!("CARGO_MANIFEST_DIR"), "/kv/planner_oracle.rs"));'
+    return ("src/second_chance.rs", gen)
+
+
+# ---------------------------------------------------------------------------------------------
+def c08_planner(funcs, text, max_n=6):
+    """second_chance::Update::new on the MIR, Vec operations modelled as finite sequences:
+    for every n <= max_n, every capacity, every choice of access flags and every *sorted* vector of
+    symbolic ranks (ties included), the plan satisfies the clock-queue specification (S0-S5 of
+    harness/second_chance.rs).  The sort itself is std's (`sort_by_cached_key` is called on the
+    collected vector with key = Entry::rank before the scan: checked structurally); an arbitrary
+    input is its sorted permutation.  Kani's c08_* harnesses run the same function with the real
+    sort on small n."""
+    import re
+    f = _fn(funcs, "second_chance::new")
+    clo = _fn(funcs, "second_chance::new::{closure#0}")
+    body = funcs[clo].blocks
+    key_is_rank = any("<T as second_chance::Entry>::rank(copy _2)" in t for (_s, t) in body.values())
+    obs = [Obligation("the planner sorts by Entry::rank (the sort key closure returns rank())", [], [], "true" if key_is_rank else "false", [clo],
+                      note="structural")]
+    total_paths = 0
+    models_used = set()
+    for n in range(0, max_n + 1):
+        for cap in list(range(0, n + 1)) + [None]:
+            sorted_calls = []
+
+            def m_into_iter_input(ex, args, pc):
+                return [([], args[0])]
+
+            def m_collect(ex, args, pc):
+                return [([], args[0])]
+
+            def m_len(ex, args, pc):
+                v = ex.project(args[0], ("deref",))
+                return [([], ("int", str(len(v[1])), 64, False))]
+
+            def m_new(ex, args, pc):
+                return [([], ("tuple", []))]
+
+            def m_deref_mut(ex, args, pc):
+                return [([], args[0])]
+
+            def m_sort(ex, args, pc):
+                v = ex.project(args[0], ("deref",))
+                sorted_calls.append([e[3][0][1] for e in v[1]])
+                return [([], ("tuple", []))]
+
+            def m_vec_into_iter(ex, args, pc):
+                return [([], ("adt", "IntoIter", 0, {0: args[0], 1: ("int", "0", 64, False)}))]
+
+            def m_next(ex, args, pc):
+                it = ex.project(args[0], ("deref",))
+                lst, pos = it[3][0][1], int(it[3][1][1])
+                if pos >= len(lst):
+                    return [([], ("adt", "Option", 0, {}))]
+                newit = ("adt", "IntoIter", 0, {0: it[3][0], 1: ("int", str(pos + 1), 64, False)})
+                args[0][1][0] = newit
+                return [([], ("adt", "Option", 1, {0: lst[pos]}))]
+
+            def m_accessed(ex, args, pc):
+                e = ex.project(args[0], ("deref",))
+                return [([], e[3][2])]
+
+            def m_push(ex, args, pc):
+                ref, e = args
+                cur = ref[1][0]
+                ref[1][0] = ("tuple", list(cur[1]) + [e])
+                return [([], ("tuple", []))]
+
+            def m_drain(ex, args, pc):
+                ref, rng = args
+                if mir.const_value(rng[3][0][1]) is None or mir.const_value(rng[3][1][1]) is None:
+                    raise mir.NeedsConcrete()
+                k0, k1 = int(rng[3][0][1]), int(rng[3][1][1])
+                cur = list(ref[1][0][1])
+                ref[1][0] = ("tuple", cur[:k0] + cur[k1:])
+                return [([], ("tuple", cur[k0:k1]))]
+
+            def m_extend(ex, args, pc):
+                ref, dr = args
+                ref[1][0] = ("tuple", list(ref[1][0][1]) + list(dr[1]))
+                return [([], ("tuple", []))]
+
+            ex = _fresh_executor(funcs, inline=lambda name: False, models={
+                r"^<impl IntoIterator<Item = T> as IntoIterator>::into_iter$": m_into_iter_input,
+                r"as Iterator>::collect::<Vec<T>>$": m_collect,
+                r"^Vec::<T>::len$": m_len, r"^Vec::<T>::new$": m_new, r"^<Vec<T> as DerefMut>::deref_mut$": m_deref_mut,
+                r"sort_by_cached_key::": m_sort, r"^<Vec<T> as IntoIterator>::into_iter$": m_vec_into_iter,
+                r"^<std::vec::IntoIter<T> as Iterator>::next$": m_next, r"^<T as second_chance::Entry>::accessed$": m_accessed,
+                r"^Vec::<T>::push$": m_push, r"^Vec::<T>::drain::<std::ops::Range<usize>>$": m_drain,
+                r"^<Vec<T> as Extend<T>>::extend::<std::vec::Drain<'_, T>>$": m_extend,
+            })
+            ents = []
+            assume = []
+            for i in range(n):
+                r = ex.fresh_int("rank%d" % i, 64)
+                a = ex.fresh_bool("acc%d" % i)
+                ents.append(("adt", "E", 0, {0: ("int", str(i), 64, False), 1: r, 2: a}))
+                if i > 0:
+                    assume.append("(<= %s %s)" % (ents[i - 1][3][1][1], r[1]))
+            if cap is None:
+                capv = ex.fresh_int("capacity", 64)
+                assume.append("(>= %s %d)" % (capv[1], n))
+            else:
+                capv = ("int", str(cap), 64, False)
+            res = ex.run(f, [("tuple", ents), capv])
+            models_used |= ex.models_used
+            total_paths += len(res)
+            tag = "n=%d cap=%s" % (n, "any >= n" if cap is None else cap)
+            for dpc in ex.dropped_paths:
+                obs.append(Obligation("path set aside by the sequence model is infeasible (%s)" % tag, ex.decls, ex.range_asserts + assume, "(not (and true %s))" % " ".join(dpc), [f]))
+            for (desc, pc, cond, where) in ex.obligations:
+                obs.append(Obligation("planner never panics (%s): %s" % (tag, desc), ex.decls, ex.range_asserts + assume + pc, cond, [f]))
+            m = 0 if cap is None else n - cap
+            if m > 0 and not sorted_calls:
+                obs.append(Obligation("the planner sorts before scanning (%s)" % tag, [], [], "false", [f], note="structural"))
+            for (pc, rv, env) in res:
+                ev = rv[3][0][1]
+                mb = rv[3][1][1]
+                rk = lambda e: e[3][1][1]
+                ac = lambda e: e[3][2][1]
+                ident = lambda e: int(e[3][0][1])
+                goals = []
+                ok_struct = True
+                if len(ev) != m:
+                    ok_struct = False
+                if m == 0 and len(mb) != 0:
+                    ok_struct = False
+                ids = [ident(e) for e in ev + mb]
+                if len(set(ids)) != len(ids) or any(i < 0 or i >= n for i in ids):
+                    ok_struct = False
+                if not ok_struct:
+                    obs.append(Obligation("plan shape (%s): exactly max(0,n-capacity) distinct input entries evicted, nothing when n <= capacity" % tag,
+                                          ex.decls, ex.range_asserts + assume + pc, "false", [f], native=native_planner(n, cap)))
+                    continue
+                if m == 0:
+                    continue
+                # S2: ev = U ++ T (un-accessed then accessed), mb accessed
+                u = [e for e in ev if True]
+                goals.append("(and %s)" % " ".join(["true"] + [ac(e) for e in mb]))
+                # position k where accessed starts: for all i<j in ev: not(acc(ev_i) and not acc(ev_j))
+                for i in range(len(ev)):
+                    for j in range(i + 1, len(ev)):
+                        goals.append("(not (and %s (not %s)))" % (ac(ev[i]), ac(ev[j])))
+                # S3: within the un-accessed part and within (accessed part of ev ++ mb) ranks are non-decreasing
+                for i in range(len(ev) - 1):
+                    goals.append("(=> (= %s %s) (<= %s %s))" % (ac(ev[i]), ac(ev[i + 1]), rk(ev[i]), rk(ev[i + 1])))
+                rq = ev + mb
+                for i in range(len(rq)):
+                    for j in range(i + 1, len(rq)):
+                        goals.append("(=> (and %s %s) (<= %s %s))" % (ac(rq[i]), ac(rq[j]), rk(rq[i]), rk(rq[j])))
+                scanned = set(ids)
+                rest = [e for e in ents if ident(e) not in scanned]
+                # S4 / S5
+                second_pass = "(or %s)" % " ".join(["false"] + [ac(e) for e in ev])
+                last_u = ev  # last un-accessed victim: the un-accessed victim of highest rank
+                s4 = []
+                for e in mb:
+                    for v in ev:
+                        s4.append("(=> (not %s) true)" % ac(v))
+                # when no second pass happened: reprieved entries precede the last victim and unscanned entries follow it
+                lastv = ev[-1]
+                s4 = ["(<= %s %s)" % (rk(e), rk(lastv)) for e in mb] + ["(>= %s %s)" % (rk(e), rk(lastv)) for e in rest]
+                s5 = ["true" if not rest else "false"] + ["(=> (not %s) %s)" % (ac(e), "false") for e in (mb + rest)]
+                goals.append("(ite %s (and %s) (and %s))" % (second_pass, " ".join(s5), " ".join(["true"] + s4)))
+                obs.append(Obligation("plan = classical clock queue (%s, path with %d victims / %d reprieved)" % (tag, len(ev), len(mb)),
+                                      ex.decls, ex.range_asserts + assume + pc, "(and %s)" % " ".join(goals), [f], native=native_planner(n, cap)))
+    obs.append(Obligation("witness: planner paths explored", [], [], "false", [f], expect="sat", note="%d paths over n <= %d" % (total_paths, max_n)))
+    return obs, dict(models=sorted(models_used), inlined=[f, clo])
+
+
+UNITS = {"c08_planner": c08_planner, "c07_apply_glue": c07_apply_glue, "c12_mapping": c12_mapping, "c10_trigger": c10_trigger, "c07_prune_glue": c07_prune_glue}
